@@ -884,3 +884,109 @@ func checkC08Late(c *Ctx, n int) {
 		})
 	}
 }
+
+// ------------------------------------------------------------------------------------ C03, what the command is handed
+
+// checkC03Handed: IgnoreUnknown with executable commands.  Unknown options in front of, between and
+// behind command words; a word is a command word only while nothing has been passed through yet.  What
+// must be returned - and handed, identically, to the command that runs or to the CommandHandler - is
+// computed token by token from the construction.
+func checkC03Handed(c *Ctx, n int) {
+	r := c.Rng
+	for i := 0; i < n; i++ {
+		cs := &Case{Name: "app", NsDelim: ".", EnvNsDelim: "_", Opts: flags.IgnoreUnknown}
+		if r.Intn(2) == 0 {
+			cs.Opts |= flags.PassDoubleDash
+		}
+		cs.CmdHandler = r.Intn(2) == 0
+		root := &StructDesc{Fields: []FieldDesc{{Name: "V", Exported: true, Kind: "v", Ty: "bool", Tag: `short:"v" long:"verbose"`}}}
+		cs.Build = []BuildOp{
+			{Kind: "addgroup", Target: 1, Short: "Application Options", Struct: root},
+			{Kind: "setcmd", Target: 1, Attr: "subopt", Vals: []string{"1"}},
+			{Kind: "addcommand", Target: 1, Name: "outer", Short: "outer command", Struct: &StructDesc{}, Commander: 1},
+			{Kind: "setcmd", Target: 2, Attr: "subopt", Vals: []string{"1"}},
+			{Kind: "addcommand", Target: 2, Name: "inner", Short: "inner command", Struct: &StructDesc{}, Commander: 1},
+			{Kind: "addcommand", Target: 1, Name: "other", Short: "other command", Struct: &StructDesc{}, Commander: 1},
+		}
+		// uids: 1 app, 2 outer, 3 inner, 4 other
+		subs := map[int]map[string]int{1: {"outer": 2, "other": 4}, 2: {"inner": 3}, 3: {}, 4: {}}
+		var argv, want []string
+		active := 1
+		term := false
+		unk := func() string { return []string{"--trace", "-x", "--nosuch=1", "-q=2"}[r.Intn(4)] }
+		for j, k := 0, 2+r.Intn(6); j < k; j++ {
+			var t string
+			switch x := r.Intn(8); {
+			case x == 0:
+				t = "-v"
+			case x <= 2:
+				t = unk()
+			case x == 3 && cs.Opts&flags.PassDoubleDash != 0:
+				t = "--"
+			case x <= 5:
+				t = []string{"outer", "inner", "other"}[r.Intn(3)]
+			default:
+				t = fmt.Sprintf("w%d", j)
+			}
+			argv = append(argv, t)
+			switch {
+			case term:
+				want = append(want, t)
+			case t == "--":
+				term = true
+			case t == "-v":
+			case strings.HasPrefix(t, "-"):
+				want = append(want, t)
+			default:
+				if id, ok := subs[active][t]; ok && len(want) == 0 {
+					active = id
+				} else {
+					want = append(want, t)
+				}
+			}
+		}
+		cs.Ops = []Op{{Kind: "parse", Args: argv}}
+		cs.Description = describeOps(cs)
+		c.RunCases([]*Case{cs}, func(cr *CaseResult) {
+			c.classifyCase(cr)
+			if cr.Real == nil || cr.Real.dead {
+				return
+			}
+			var obs parseObs
+			for _, o := range parseBlocks(cr) {
+				obs = o
+			}
+			c.Class(fmt.Sprintf("c03/handed: active-depth=%d passed=%d handler=%v", map[int]int{1: 0, 2: 1, 3: 2, 4: 1}[active], len(want), cs.CmdHandler))
+			in := map[string]interface{}{"case": cs.Description, "argv": argv}
+			var handed []string
+			for _, l := range obs.logs {
+				if strings.HasPrefix(l, "LOG exec ") || strings.HasPrefix(l, "LOG cmdhandler ") {
+					ws := strings.Fields(l)
+					handed = append(handed, ws[1]+" "+ws[2]+" "+decodeLine(strings.Join(ws[3:], " ")))
+				}
+			}
+			wantRet := fmt.Sprintf("%q", want)
+			// who is told: the CommandHandler (with the command, or nil when none was selected), which then
+			// runs the command; without a handler the command itself
+			var wantHanded []string
+			rest := decodeLine(hxList(want))
+			if cs.CmdHandler {
+				if active == 1 {
+					wantHanded = append(wantHanded, "cmdhandler nil "+rest)
+				} else {
+					wantHanded = append(wantHanded, fmt.Sprintf("cmdhandler %d %s", active, rest), fmt.Sprintf("exec %d %s", active, rest))
+				}
+			} else if active != 1 {
+				wantHanded = append(wantHanded, fmt.Sprintf("exec %d %s", active, rest))
+			}
+			ok := obs.panic == "" && obs.errKind == "ok" && (fmt.Sprintf("%q", obs.ret) == wantRet || len(obs.ret) == 0 && len(want) == 0) &&
+				strings.Join(handed, " | ") == strings.Join(wantHanded, " | ")
+			if !ok {
+				in["case_file"] = c.saveCase(cr)
+			}
+			c.Check("the-command-is-handed-exactly-the-unconsumed-tokens", ok, "C03:handed", in,
+				fmt.Sprintf("%s %s %q returned %q; handed: %s", obs.panic, obs.errKind, obs.errMsg, obs.ret, strings.Join(handed, " | ")),
+				fmt.Sprintf("success, returned %s; handed: %s", wantRet, strings.Join(wantHanded, " | ")))
+		})
+	}
+}
